@@ -4,7 +4,7 @@
    canonical serialisation the Go harness prints for the implementation. *)
 From Coq Require Import NArith ZArith List Bool.
 From StunV Require Import Base.ListAux Base.Outcome Base.Bytes Base.Slice Model.MsgType Model.Message Model.Rfc Model.RfcAttrs
-  Model.Crc32 Model.Sha1 Model.Sha256 Model.Md5 Model.Hmac Model.Attrs Model.Ops Model.Agent Model.Client.
+  Model.Crc32 Model.Sha1 Model.Sha256 Model.Md5 Model.Hmac Model.Attrs Model.Ops Model.Agent Model.Client Model.Uri.
 Import ListNotations.
 Open Scope N_scope.
 
@@ -349,6 +349,56 @@ Definition run_c13 (sub : N) (args : list (list N)) : list N :=
   | _ => bad_case
   end.
 
+(* C16 / C17: URIs.
+   1601 <string>: ParseURI — [0; scheme; port; proto; |host|; host...] or [1] (error); 3 = the model ran
+        out of fuel (pinned recursive version only)
+   1701 <string>: ParseURI, URI.String, ParseURI again — first result, then |string|, string, second
+        result, and whether the two URIs are equal
+   1702 <[scheme; proto]>: the transport DialURI uses for a hand-made URI value:
+        0 plain UDP, 1 plain TCP, 2 DTLS over UDP, 3 TLS over TCP, 4 ErrUnsupportedURI *)
+Definition scheme_code (s : scheme_t) : N :=
+  match s with SchUnknown => 0 | SchSTUN => 1 | SchSTUNS => 2 | SchTURN => 3 | SchTURNS => 4 end.
+Definition proto_code (p : proto_t) : N := match p with PrUnknown => 0 | PrUDP => 1 | PrTCP => 2 end.
+Definition scheme_of_code (n : N) : scheme_t :=
+  match n with 1 => SchSTUN | 2 => SchSTUNS | 3 => SchTURN | 4 => SchTURNS | _ => SchUnknown end.
+Definition proto_of_code (n : N) : proto_t := match n with 1 => PrUDP | 2 => PrTCP | _ => PrUnknown end.
+(* ports are printed as sign, |p| / 2^31, |p| mod 2^31 so that every int64 (the pinned tree accepted any)
+   stays within the driver's 63-bit integers *)
+Definition ser_uri (r : outcome uri) : list N :=
+  match r with
+  | Ok u => let a := Z.abs_N (u_port u) in
+            [0; scheme_code (u_scheme u); (if (u_port u <? 0)%Z then 1 else 0); a / 2147483648; a mod 2147483648;
+             proto_code (u_proto u); lenN (u_host u)] ++ u_host u
+  | Err _ => [1]
+  | Panic => [2]
+  | OutOfFuel => [3]
+  end.
+Definition uri_eqb (a b : uri) : bool :=
+  (scheme_code (u_scheme a) =? scheme_code (u_scheme b)) && str_eqb (u_host a) (u_host b) &&
+  (u_port a =? u_port b)%Z && (proto_code (u_proto a) =? proto_code (u_proto b)).
+Definition plan_code (p : dial_plan) : N :=
+  match p with PlainUDP => 0 | PlainTCP => 1 | DTLSoverUDP => 2 | TLSoverTCP => 3 | Unsupported => 4 end.
+Definition run_c16 (sub : N) (args : list (list N)) : list N :=
+  match sub, args with
+  | 1, [s] => ser_uri (parse_uri s)
+  | 1, [] => ser_uri (parse_uri [])
+  | _, _ => bad_case
+  end.
+Definition run_c17 (sub : N) (args : list (list N)) : list N :=
+  match sub, args with
+  | 1, [s] =>
+    let r := parse_uri s in
+    ser_uri r ++
+    match r with
+    | Ok u => let s2 := uri_string u in
+              let r2 := parse_uri s2 in
+              [lenN s2] ++ s2 ++ ser_uri r2 ++ [match r2 with Ok u2 => b2n (uri_eqb u u2) | _ => 0 end]
+    | _ => []
+    end
+  | 2, [[sc; pr]] => [plan_code (dial_of (scheme_of_code sc) (proto_of_code pr))]
+  | _, _ => bad_case
+  end.
+
 (* C18: pooled HMAC histories.
    1801 <[algo]> <op> <op> ...   algo 1 = SHA-1, 256 = SHA-256
    op = [1; key...] acquire | [2; bytes...] write | [3; prefix...] sum | [4] reset | [5] put
@@ -399,6 +449,8 @@ Definition run (cmd : N) (args : list (list N)) : list N :=
   | 7 => run_c07 (cmd mod 100) args
   | 10 => run_c10 (cmd mod 100) args
   | 13 => run_c13 (cmd mod 100) args
+  | 16 => run_c16 (cmd mod 100) args
+  | 17 => run_c17 (cmd mod 100) args
   | 18 => run_c18 (cmd mod 100) args
   | 19 => run_c19 (cmd mod 100) args
   | _ => bad_case
